@@ -23,6 +23,10 @@ ASSUMPTIONS = [
     "float results are compared with the exact rational image within 64 ulp of the largest magnitude entering the step; "
     "accumulated error bound is propagated through scalings",
     "NaN/inf arguments are outside the alphabet",
+    "coherence: before every step all derived public quantities of the object are read once; after the step they are "
+    "compared bit for bit with those of a fresh object constructed from the reached primary attributes (same float "
+    "corners, n, values): both are the same functions of the same floats, so equality is exact; states from which no "
+    "fresh object can be constructed are left to the invariant / conformance oracles",
     "in-place rotation of a mesh that is shared with a live Field (field.mesh.rotate90(inplace=True)) is outside the "
     "alphabet: a Field is rotated through Field.rotate90; translate/scale of a field go through field.mesh in place",
 ]
@@ -260,6 +264,36 @@ def _invariants(ctx, sig, obj, inst, what):
     return ok
 
 
+def _coherent(ctx, sig, obj, inst, what):
+    """Every derived public quantity of the reached object (edges, centre, volume, cell, dV, len, cells, vertices,
+    indices, index<->point, coordinate field, sub-meshes, integrals, norm, sampling) must be what a FRESH object with the
+    same primary attributes answers: a step must not leave anything behind that still describes the previous geometry."""
+    ctx.check()
+    try:
+        fresh = C.fresh_copy(obj)
+    except Exception as e:  # the invariants / conformance oracles judge such states
+        ctx.note(f"coherence:fresh-object-not-constructible:{type(e).__name__}")
+        return True
+    try:
+        a = C.observables(obj)
+    except Exception as e:
+        ctx.fail(f"{sig}/derived-quantity-raises", f"{what}: {type(e).__name__}: {str(e)[:160]}", instance=inst)
+        return False
+    d = C.observables_differ(a, C.observables(fresh))
+    if d:
+        ctx.fail(f"{sig}/derived-quantity-stale-or-inconsistent", f"{what}: {d}", instance=inst)
+        return False
+    return True
+
+
+def _warm(obj):
+    """read every derived quantity once BEFORE the step (whatever the library memoises is then populated)"""
+    try:
+        C.observables(obj)
+    except Exception:
+        pass
+
+
 def _canon(obj):
     r = _region_of(obj)
 
@@ -317,11 +351,17 @@ def unit_histories(ctx):
         cls = f"{'Field' if kind == 'field' else 'Mesh' if kind.startswith('mesh') else 'Region'}.{ev[0]}"
         pre = build(hist)
         snap0 = C.snap(pre)
+        coh = th or len(hist) == 0  # quick: coherence of derived quantities on the first step of every history (thorough: every step)
         step_model = Model(pre).step(ev)  # exact image of the ACTUAL pre-state
         acc_model = model_of(hist + (ev,))  # exact image of the initial state through the whole history
         if form == "copy":
+            if coh:
+                _warm(pre)
             res = _call(pre, kind, ev, "copy")
             ctx.check()
+            if coh and not _coherent(ctx, cls + "/copy", res, inst, "result of the copying form") or \
+                    coh and not _coherent(ctx, cls + "/copy-original", pre, inst, "original after the copying form"):
+                return None
             if C.snap(pre) != snap0:
                 ctx.fail(f"{cls}/copy-modified-original", "copying form changed the object it was called on", instance=inst)
             if res is pre:
@@ -357,10 +397,14 @@ def unit_histories(ctx):
             return nxt
         # in place (form 'in' or 'mesh-in')
         pre2 = build(hist)
+        if coh:
+            _warm(pre2)
         res_i = _call(pre2, kind, ev, form)
         ctx.check()
         if res_i is not pre2:
             ctx.fail(f"{cls}/inplace-not-self", f"in-place form returned {type(res_i).__name__}, not the object itself", instance=inst)
+            return None
+        if coh and not _coherent(ctx, cls + "/inplace", res_i, inst, "object after the in-place form"):
             return None
         _conform(ctx, cls + "/inplace", res_i, step_model, inst, "in place vs exact image of the pre-state")
         _conform(ctx, cls + "/inplace-history", res_i, acc_model, inst, "in place vs exact image of the initial state")
